@@ -14,11 +14,13 @@ import sys
 import time
 
 VERIF = os.path.dirname(os.path.dirname(os.path.abspath(__file__)))
-REPO = "/repo"
+# the tree under test: /repo itself, or (only for the mutation self-tests of
+# tools/mutate.py) a scratch copy named by VIP_REPO
+REPO = os.environ.get("VIP_REPO", "/repo")
 SPEC = os.path.join(VERIF, "spec")
 HARNESS = os.path.join(VERIF, "harness")
 OUT = os.path.join(VERIF, "out")
-BIN = os.path.join(VERIF, "bin")
+BIN = os.path.join(VERIF, "bin") if REPO == "/repo" else os.path.join(OUT, "bin-" + REPO.strip("/").replace("/", "_"))
 EVIDENCE = os.path.join(VERIF, "evidence")
 REPLAYS = os.path.join(VERIF, "replays")
 KNOWN = os.path.join(VERIF, "known_findings.json")
@@ -57,8 +59,21 @@ def scratch(name):
 # ---------------------------------------------------------------------------
 # building
 
+def _modfile():
+    """go.mod of the harness with the replace pointing at the tree under test."""
+    if REPO == "/repo":
+        shutil.copyfile(os.path.join(REPO, "go.sum"), os.path.join(HARNESS, "go.sum"))
+        return []
+    mod = os.path.join(BIN, "alt.mod")
+    text = open(os.path.join(HARNESS, "go.mod")).read().replace("=> /repo", "=> " + REPO)
+    with open(mod, "w") as f:
+        f.write(text)
+    shutil.copyfile(os.path.join(REPO, "go.sum"), os.path.join(BIN, "alt.sum"))
+    return ["-modfile=" + mod]
+
+
 def _build(out, tags=None, race=False, cgo=True, pkg="./cmd/vipsim"):
-    cmd = ["go", "build", "-o", out]
+    cmd = ["go", "build"] + _modfile() + ["-o", out]
     if tags:
         cmd += ["-tags", tags]
     if race:
@@ -66,7 +81,6 @@ def _build(out, tags=None, race=False, cgo=True, pkg="./cmd/vipsim"):
     cmd += [pkg]
     env = dict(GOENV)
     env["CGO_ENABLED"] = "1" if cgo else "0"
-    shutil.copyfile(os.path.join(REPO, "go.sum"), os.path.join(HARNESS, "go.sum"))
     p = subprocess.run(cmd, cwd=HARNESS, env=env, stdout=subprocess.PIPE, stderr=subprocess.STDOUT, text=True)
     if p.returncode != 0:
         raise Machinery("go build failed (%s):\n%s" % (" ".join(cmd), p.stdout[-4000:]))
